@@ -465,7 +465,9 @@ fn grid_case(t: Tier, scene: usize, r1: u32, ctx: &mut Ctx) {
 					4 | 7 | 9 => delay_us(t).iter().flat_map(|d| (0..4).map(move |pl| (*d, pl))).collect(),
 					10 => (0..LFO_HZ.len() as u64).flat_map(|f| (0..LFO_WAVES.len()).map(move |wv| (f, wv))).collect(),
 					// a corner well below every device rate, and one above a sixth of the lowest (3 kHz at 8 kHz is 0.375 of the rate)
-					5 | 6 => vec![(1000, 0), (3000, 0)],
+					// (and, for the filter, a corner far below every device rate / 1000)
+					5 => vec![(1000, 0), (3000, 0), (150, 0)],
+					6 => vec![(1000, 0), (3000, 0)],
 					_ => vec![(0, 0)],
 				};
 				for (a, b) in variants {
@@ -487,7 +489,12 @@ fn grid_case(t: Tier, scene: usize, r1: u32, ctx: &mut Ctx) {
 							}
 						}
 						1 => scene_start(&p, false, &mut fails),
-						2 => scene_start(&p, true, &mut fails),
+						2 => scene_start(&p, true, &mut fails).and_then(|o| {
+							if p.k == NONE || p.k == 0 {
+								long_callbacks(&p, &mut fails)?;
+							}
+							Ok(o)
+						}),
 						3 => scene_tween(&p, &mut fails),
 						4 => scene_delay(&p, a, b, false, false, &mut fails),
 						9 => scene_delay(&p, a, b, false, true, &mut fails),
@@ -628,6 +635,34 @@ fn scene_sound(p: &Plan, sr: u32, streaming: bool, reversed: bool, fails: &mut V
 	drop(h);
 	drop(sh);
 	Ok((!slopes.is_empty(), hash64(&(q(dur - want, p.frame_s() / 2.0), slopes.len()))))
+}
+
+/// a clock through callbacks of a quarter of a second (every internal buffer is rendered in full: 128 frames at 8 kHz are 16 ms):
+/// 100 ticks/s is 100 ticks/s at every device rate and internal buffer size, across a change of the rate
+fn long_callbacks(p: &Plan, fails: &mut Vec<(String, String)>) -> Result<(), String> {
+	let mut w = world(p.r1, p.ibs, 16, None);
+	let mut ck = w.m.add_clock(ClockSpeed::TicksPerSecond(100.0)).map_err(|_| "add_clock failed".to_string())?;
+	w.cb(1)?;
+	w.clear_log();
+	ck.start();
+	w.cb((p.r1 / 4) as usize)?;
+	w.clear_log();
+	if p.k != NONE {
+		w.change(p.r2)?;
+	}
+	let r2 = if p.k == NONE { p.r1 } else { p.r2 };
+	w.cb((r2 / 4) as usize)?;
+	w.clear_log();
+	// (the handle sees the time as of the start of the latest callback)
+	w.cb(1)?;
+	let t = ck.time();
+	let got = t.ticks as f64 + t.fraction;
+	// (the start command is adopted at the first callback's start; the time is published per internal buffer)
+	let tol = 1.0 + 100.0 * 2.0 * p.ibs as f64 / p.r1.min(r2) as f64;
+	if (got - 50.0).abs() > tol {
+		fails.push((format!("clock: ticks per second depend on the device rate / internal buffer when callbacks are long :: {}", p.phase()), format!("a 100 ticks/s clock after 0.25 s at {} Hz and 0.25 s at {} Hz (two callbacks, internal buffer {}): {:.3} ticks, expected 50 +- {:.2}", p.r1, r2, p.ibs, got, tol)));
+	}
+	Ok(())
 }
 
 /// DC sound that must start at 5 ms (StartTime::Delayed) or at tick 2 of a 200 ticks/s clock (10 ms)
